@@ -378,7 +378,9 @@ def _analyse(fmt, tier, seed, which, res):
                 elif rr == "sat":
                     ok = _replay_rate(p, tdir, res, s.model(), run, i, ref, key, name, r, fmt)
                 else:
-                    res["unknown"].append((name, "solver " + rr))
+                    # no verdict in time: the native comparison at default and random points is still made
+                    n_before = len(res["viol"])
+                    _replay_rate(p, tdir, res, None, run, i, ref, key, name + " [solver " + rr + "]", r, fmt)
                 # canary once per project
                 if res["canary"][0] < res["programs"] and is_sym(kk) and r["a"] not in ("0.0", "0.00E+00"):
                     res["canary"][0] += 1
@@ -457,6 +459,9 @@ def _point(model, run, rnd=None):
     env = {}
     names = ["Tgas", "Av", "zeta", "omega", "nH", "zeta_cr", "zeta_xr", "G0", "Tdust"]
     for n in names:
+        if rnd is None and model is None:
+            env[n] = {"Tgas": 77.0, "omega": 0.5, "Av": 1.3, "zeta": 1.0}.get(n, 1.0)
+            continue
         if rnd is None:
             v = model.eval(z3.Real(n), model_completion=True)
             try:
